@@ -91,6 +91,9 @@ def singleCopyPos (c : Cov) (g : GeneView) (s : CNSol) (pos : Int) : Rat :=
 def averageCoverage (c : Cov) : Rat :=
   (c.table.map fun (pos, _) => c.totalPos pos).sum / ((c.table.length : Rat) + Const.AVG_COV_DENOM_ADD)
 
+/-- Python `max(a, b)` on numbers -/
+def ratMax (a b : Rat) : Rat := if a < b then b else a
+
 /-- `basic_filter(mut, cn, thres)` with Python's `thres or profile.threshold`, `cn or 1`. -/
 def basicFilter (c : Cov) (p : ProfileV) (m : Mut) (cn : Option Rat) (thres : Option Rat) : Bool :=
   let t0 := match thres with
@@ -100,8 +103,7 @@ def basicFilter (c : Cov) (p : ProfileV) (m : Mut) (cn : Option Rat) (thres : Op
     | some k => if k == 0 then 1 else k
     | none => 1
   let t := t0 / c0
-  let minCov := if p.minCoverage < c.total m * t then c.total m * t else p.minCoverage
-  decide (c.coverage m ≥ minCov)
+  decide (c.coverage m ≥ ratMax p.minCoverage (c.total m * t))
 
 /-- `quality_filter(mut)`. -/
 def qualityFilter (c : Cov) (p : ProfileV) (m : Mut) : List Obs :=
